@@ -198,23 +198,33 @@ Definition spec_annotations (e : entity) (cs : list component) : Prop :=
   /\ (forall s, In s (svcs_in cs 1) -> svc_entity s = sp_annotation e)
   /\ (forall s, In s (svcs_in cs 2) -> svc_entity s = sp_topic_entity e).
 
-(* ---- clause 5: "mutually consistent" ------------------------------------------------------------------ *)
-(* every reference resolves, every name is defined once per scope, and State / Event are
-   objects: their JSON properties (after flattening the keys) are distinct *)
+(* ---- clause 5: "yields": the output is a linkable set of files ------------------------------------------ *)
+(* every reference resolves and every name is defined once per scope (what the compiler's own
+   link step demands before it hands the descriptors out) *)
 Definition spec_consistent (e : entity) (cs : list component) : Prop :=
   closed cs = true /\ link_ok cs = true.
+
+(* NOT a clause of C17 (known-findings audit 2.6: the text says State and Event "hold metadata plus
+   the flattened keys (and data/status, or the event oneof)", which holds literally also when a key
+   is named like one of these properties; uniqueness of JSON property names is C18's clause, where
+   the class is recorded).  Kept as a lemma about the model, outside [C17_spec]: the JSON
+   properties of State / Event (after flattening the keys) are distinct *)
 Definition spec_objects (e : entity) (cs : list component) : Prop :=
   forall m, has_msg cs 0 m -> (m_name m = sp_name e "State" \/ m_name m = sp_name e "Event") ->
     NoDup (json_props cs m).
+(* no key named like a property of State / Event: the hypothesis of that lemma *)
+Definition state_event_names_free (e : entity) : bool :=
+  forallb (fun k => negb (existsb (bytes_eqb (key_name k)) [bs "metadata"; bs "data"; bs "status"; bs "event"]))
+          (e_keys e).
 
-(* everything but the two clauses that are refuted / need the literal base path *)
+(* everything but the clause that needs the literal base path *)
 Definition C17_spec_core (e : entity) (cs : list component) : Prop :=
   spec_keys e cs /\ spec_data e cs /\ spec_status e cs /\ spec_state e cs /\ spec_event e cs
   /\ spec_event_type e cs /\ spec_query e cs /\ spec_commands e cs /\ spec_topics e cs
   /\ spec_annotations e cs /\ spec_consistent e cs.
 
 Definition C17_spec (e : entity) (cs : list component) : Prop :=
-  C17_spec_core e cs /\ spec_query_paths e cs /\ spec_objects e cs.
+  C17_spec_core e cs /\ spec_query_paths e cs.
 
 (* ---- the quantifier ---------------------------------------------------------------------------------------
    "for all entity declarations: any entity name casing, 1..n keys of any type with any mix of
@@ -225,29 +235,60 @@ Definition C17_spec (e : entity) (cs : list component) : Prop :=
    repeat the entity's own component names; fields are not both optional and required; references
    name a schema of the block (or the entity's Keys / Data); ":name" parts of a method path are
    request fields; default status filters are statuses.  No condition mentions a field name the
-   expansion itself adds (page, query, upsert, metadata, data, status, event, type): see
-   [reserved_free]. *)
+   expansion itself adds (page, query, upsert, metadata, data, status, event, type): the names that
+   make the compiler REJECT the declaration are collected in [reserved_free]; a key named
+   metadata / data / status / event is inside the quantifier AND satisfies the property. *)
 Definition starts_letter (s : bytes) : bool := match s with c :: _ => is_letter c | [] => false end.
 Definition starts_cap (s : bytes) : bool := match s with c :: _ => is_cap c | [] => false end.
 Definition name_ok (s : bytes) : bool := ident s && starts_letter s.
 Definition type_name_ok (s : bytes) : bool := forallb alnum s && starts_cap s.
 
-(* inline anonymous schemas (field x object { ... }) are modelled and compared with the real compiler,
-   but the acceptance theorem does not cover them: they are outside [in_quantifier] *)
-Definition is_inline_kind (u : ufield) : bool :=
-  match uf_kind u with KInlineObject _ | KInlineOneof _ | KInlineEnum _ => true | _ => false end.
+(* inline anonymous schemas (field x object { ... } / oneof { ... } / enum { ... }): the type is nested in
+   the message under the name ToCamel(field); its own fields / options form a scope of their own; the
+   values of an inline enum live in the MESSAGE scope (enum values are siblings of their enum) *)
+Definition sfield_wf (s : sfield) : bool :=
+  name_ok (sf_name s) && negb (sf_optional s && sf_required s).
+Definition sp_inline_scope (is_oneof : bool) (fs : list sfield) : list bytes :=
+  map (fun s => to_snake (sf_name s)) fs
+  ++ (if is_oneof then [] else map (fun s => 95 :: to_snake (sf_name s)) (filter sf_optional fs)).
+Definition inline_wf (u : ufield) : bool :=
+  match uf_kind u with
+  | KInlineObject fs => forallb sfield_wf fs && nodup_bytes (sp_inline_scope false fs)
+  | KInlineOneof fs => forallb sfield_wf fs && nodup_bytes (sp_inline_scope true fs)
+  | KInlineEnum os => forallb name_ok os
+  | _ => true
+  end.
 Definition ufield_wf (u : ufield) : bool :=
-  name_ok (uf_name u) && negb (is_inline_kind u)
+  name_ok (uf_name u) && inline_wf u
   && negb (uf_optional u && (uf_required u || match uf_kind u with KKey p _ _ => p | _ => false end)).
 (* the proto symbols the user's fields of ONE message stand for: the field ToSnake(name), the
-   presence oneof "_<field>" of an optional field, the entry message <Camel>Entry of a map field *)
+   presence oneof "_<field>" of an optional singular field, the entry message <Camel>Entry of a map field,
+   the inline type <Camel> of an inline field and the values of an inline enum *)
 Definition is_map_kind (u : ufield) : bool := match uf_kind u with KMap _ => true | _ => false end.
+(* only a singular field has a presence oneof: an optional array / map is a plain repeated field (fix d536c9b) *)
+Definition is_repeated_kind (u : ufield) : bool :=
+  match uf_kind u with KArray _ => true | KMap _ => true | _ => false end.
+Definition sp_presence (u : ufield) : bool := uf_optional u && negb (is_repeated_kind u).
+Definition sp_enum_value_name (prefix s : bytes) : bytes := if has_prefix prefix s then s else prefix ++ s.
+Definition sp_inline_enum_values (name : bytes) (opts : list bytes) : list bytes :=
+  let prefix := to_screaming_snake name ++ [95] in
+  match opts with
+  | s :: _ => if has_suffix (bs "UNSPECIFIED") s then map (sp_enum_value_name prefix) opts
+              else (prefix ++ bs "UNSPECIFIED") :: map (sp_enum_value_name prefix) opts
+  | [] => [prefix ++ bs "UNSPECIFIED"]
+  end.
+Definition sp_inline_names (fs : list ufield) : list bytes :=
+  flat_map (fun u => match uf_kind u with
+    | KInlineObject _ => [to_camel (uf_name u)]
+    | KInlineOneof _ => [to_camel (uf_name u)]
+    | KInlineEnum os => to_camel (uf_name u) :: sp_inline_enum_values (to_camel (uf_name u)) os
+    | _ => [] end) fs.
 Definition sp_field_scope (fs : list ufield) : list bytes :=
   map (fun u => to_snake (uf_name u)) fs
-  ++ map (fun u => 95 :: to_snake (uf_name u)) (filter uf_optional fs)
+  ++ map (fun u => 95 :: to_snake (uf_name u)) (filter sp_presence fs)
   ++ map (fun u => map_name (to_snake (uf_name u))) (filter is_map_kind fs).
 Definition fields_wf (fs : list ufield) : bool :=
-  forallb ufield_wf fs && nodup_bytes (sp_field_scope fs).
+  forallb ufield_wf fs && nodup_bytes (sp_field_scope fs ++ sp_inline_names fs).
 
 (* package: dot-separated lower-case identifiers *)
 Definition pkg_char (c : N) : bool := is_low c || is_num c || (c =? 95) || (c =? 46).
@@ -276,6 +317,8 @@ Definition ref_ok (e : entity) (u : ufield) : bool :=
   | KEnum n => names_enum e n
   | KArray i => item_ref_ok e i
   | KMap i => item_ref_ok e i
+  | KInlineObject fs => forallb (fun s => item_ref_ok e (sf_kind s)) fs
+  | KInlineOneof fs => forallb (fun s => item_ref_ok e (sf_kind s)) fs
   | _ => true
   end.
 
@@ -379,16 +422,14 @@ Definition in_quantifier (e : entity) : bool :=
      | None => true
      end.
 
-(* the field names the expansion itself adds next to the user's: a declaration that uses one of
-   them in that place is inside the quantifier, but its expansion is not linkable / not an object *)
+(* the field names the expansion itself adds next to the user's in ONE proto scope: a declaration that
+   uses one of them in that place is inside the quantifier, but the compiler rejects it (link error
+   `symbol ... already defined`), which contradicts "each entity declaration yields ..." *)
 Definition response_name (e : entity) : bytes := to_snake (to_lower_camel (to_snake (e_name e))).
 Definition reserved_free (e : entity) : bool :=
   (* keys in the Get/List/Events requests next to page and query *)
   forallb (fun k => negb (key_in_path k && existsb (bytes_eqb (to_snake (key_name k))) [bs "page"; bs "query"]))
           (e_keys e)
-  (* keys flattened into State / Event next to their own properties *)
-  && forallb (fun k => negb (existsb (bytes_eqb (key_name k)) [bs "metadata"; bs "data"; bs "status"; bs "event"]))
-             (e_keys e)
   (* summary fields next to upsert *)
   && forallb (fun s => forallb (fun u => negb (bytes_eqb (to_snake (uf_name u)) (bs "upsert"))) (s_fields s))
              (e_summaries e)
@@ -397,7 +438,19 @@ Definition reserved_free (e : entity) : bool :=
   && forallb (fun s => match s with
                        | SOneof _ opts => forallb (fun u => negb (bytes_eqb (to_snake (uf_name u)) (bs "type"))) opts
                        | _ => true end) (e_schemas e)
+  && forallb (fun u => match uf_kind u with
+                        | KInlineOneof opts => forallb (fun o => negb (bytes_eqb (to_snake (sf_name o)) (bs "type"))) opts
+                        | _ => true end) (all_ufields e)
   (* the entity's own property in the Get / List responses next to events / page *)
   && negb (bytes_eqb (response_name e) (bs "page"))
   && negb (match e_query e with Some q => q_events_in_get q | None => false end
            && bytes_eqb (response_name e) (bs "events")).
+
+(* ---- several entity declarations in one source file --------------------------------------------------
+   each declaration in the quantifier and free of reserved names, and the documented names of the three
+   packages distinct over the WHOLE file (the entities share the packages) *)
+Definition file_quantifier (es : list entity) : bool :=
+  forallb (fun e => in_quantifier e && reserved_free e) es
+  && nodup_bytes (flat_map sp_main_scope es)
+  && nodup_bytes (flat_map sp_service_scope es)
+  && nodup_bytes (flat_map sp_topic_scope es).
